@@ -56,7 +56,7 @@ FilterFull == [ids |-> "two", authors |-> "one", kinds |-> "multi", tage |-> "ok
                limit |-> "ok", rel |-> "na", obj |-> "object"]
 
 LabelV == [ok |-> "ok", lower |-> "bad", unknown |-> "bad", number |-> "bad"]
-SubV   == [ok |-> "ok", empty |-> "open", long |-> "open", number |-> "bad"]
+SubV   == [ok |-> "ok", unicode |-> "ok", empty |-> "open", long |-> "open", number |-> "bad"]
 ArityV == [ok |-> "ok", short |-> "bad", long |-> "bad"]
 TopV   == [array |-> "ok", object |-> "bad", string |-> "bad", emptyarray |-> "bad"]
 WsV    == [none |-> "ok", leading |-> "ok", trailing |-> "ok", inner |-> "ok", newline |-> "ok", tabcr |-> "ok",
